@@ -20,10 +20,13 @@ META = {
 }
 
 SEARCH_FUNCS = [
-    ("rsa_util", "FermatFactor"), ("rsa_util", "FactorHighAndLowBitsEqual"), ("rsa_util", "CheckContinuedFraction"),
-    ("rsa_util", "CheckFraction"), ("rsa_util", "CheckSmallUpperDifferences"), ("rsa_util", "CheckLowHammingWeight"),
-    ("special_case_factoring", "FactorWithGuess"), ("rsa_single_checks", "CheckBitPatterns.Check"),
-    ("rsa_single_checks", "CheckPermutedBitPatterns.Check"), ("rsa_single_checks", "CheckUnseededRand.Check"),
+    ("rsa_util", "FermatFactor"), ("rsa_util", "FactorHighAndLowBitsEqual"), ("rsa_util", "CheckSmallUpperDifferences"),
+    ("special_case_factoring", "FactorWithGuess"), ("rsa_single_checks", "CheckUnseededRand.Check"),
+]
+# candidate searches of the patterned / sparse / smooth families: the same rule, filed under C05 (a premature exit there leaves C04 intact)
+SEARCH_FUNCS_C05 = [
+    ("rsa_util", "CheckContinuedFraction"), ("rsa_util", "CheckFraction"), ("rsa_util", "CheckLowHammingWeight"),
+    ("rsa_single_checks", "CheckBitPatterns.Check"), ("rsa_single_checks", "CheckPermutedBitPatterns.Check"),
 ]
 # documented cut-offs: (function, normalised guard) -> reason
 CUTOFFS = {
@@ -46,7 +49,7 @@ def run(ctx):
   ctx.expect("R-C04-GUESS", 1, "guess identity")
   ctx.expect("R-C04-TABLE", 3, "table, L, gate")
   ctx.expect("R-C04-MSB", 2, "variants + list coverage")
-  ctx.expect("R-C04-EXHAUST", 10, "ten candidate-search functions")
+  ctx.expect("R-C04-EXHAUST", 5, "five candidate-search functions of the close-prime families")
 
 
 # ------------------------------------------------------------------ FERMAT
@@ -281,10 +284,9 @@ def parents(fn):
   return par
 
 
-def rule_exhaust(ctx):
-  R = "R-C04-EXHAUST"
+def rule_exhaust(ctx, funcs=None, R="R-C04-EXHAUST"):
   repo = ctx.repo
-  for mod, name in SEARCH_FUNCS:
+  for mod, name in (funcs or SEARCH_FUNCS):
     f = repo.func(mod, name)
     fn = f.node
     par = parents(fn)
